@@ -28,8 +28,8 @@ func init() {
 	register(&Rule{ID: "C11.confine", Floor: 4,
 		Text: "upward traversal is impossible by construction: node types hold no reference to a directory other than the children map, and in the path walk the directory cursor is only ever assigned the view's rootNode or a child of the current cursor; absolute link targets restart at the cursor's starting root",
 		Run:  c11Confine})
-	register(&Rule{ID: "C08.atomic", Floor: 2,
-		Text: "a field (or the target of a pointer field) that is accessed through sync/atomic anywhere is accessed through sync/atomic everywhere",
+	register(&Rule{ID: "C08.atomic", Floor: 2, Also: []string{"C05"},
+		Text: "a field (or the target of a pointer field) that is accessed through sync/atomic anywhere - or is listed as shared without a lock: the id counter shared by all views, the umask - is accessed through sync/atomic everywhere (a plain increment of the id counter hands the same id to two files created in different directories: SameFile then confuses them)",
 		Run:  c08Atomic})
 }
 
@@ -468,6 +468,18 @@ func c08Atomic(rc *RuleCtx) {
 				}
 			}
 		})
+	}
+	// fields confirmed by reading to be shared between views / goroutines without a lock and therefore atomic: they stay
+	// atomic even when a change removes the last sync/atomic call that revealed them
+	for _, fr := range []struct {
+		pkg, typ, field string
+		ptr              bool
+	}{{"memfs", "MemFS", "lastId", true}, {"orefafs", "OrefaFS", "lastId", true}, {"avfs", "UMaskFn", "umask", false}} {
+		if n := rc.C.named(fr.pkg, fr.typ); n != nil {
+			atomicFields[fkey{n, fr.field, fr.ptr}] = true
+		} else {
+			rc.anchor(fr.pkg + "." + fr.typ + " (type with the atomic field " + fr.field + ")")
+		}
 	}
 	for _, f := range funcs {
 		bads := map[string]token.Pos{}
